@@ -28,3 +28,20 @@ Theorem C19_refuted_without :
                     delivered (parent false tasks tl) <> puts tl).
 Proof. exact (conj flush_keeps_refuted (conj no_flush_before_result_refuted no_consume_after_refuted)). Qed.
 Print Assumptions C19_refuted_without.
+
+(* ---- the kind of log queue (read from ProcessRunner.__init__).  What the caller's side sees are arrivals; with the synchronous
+   queue the source uses a put *is* an arrival, so the theorem above applies to the timeline of puts: *)
+Require Import LT.Proofs.LogQueue.
+Theorem C19_caller_exactly_once_for_this_queue : forall late tasks tl, wf_tl tasks [] tl = true ->
+  stopped (parent consume_after_results_src tasks (seen_timeline log_queue_src late tl)) = true ->
+  delivered (parent consume_after_results_src tasks (seen_timeline log_queue_src late tl)) = puts tl.
+Proof. exact (sync_queue_exactly_once consume_after_results_src eq_refl). Qed.
+Print Assumptions C19_caller_exactly_once_for_this_queue.
+
+(* with a queue whose puts are asynchronous (a plain multiprocessing.Queue) a record put before the last finisher's result may
+   arrive after the loop has exited, and is never handled. *)
+Theorem C19_async_queue_refuted : exists late tasks tl, wf_tl tasks [] tl = true /\
+  stopped (parent true tasks (seen_timeline LogQueueAsync late tl)) = true /\
+  delivered (parent true tasks (seen_timeline LogQueueAsync late tl)) <> puts tl.
+Proof. exact async_queue_refuted. Qed.
+Print Assumptions C19_async_queue_refuted.
